@@ -286,7 +286,7 @@ fn c02_edits(files: &[LFile]) -> Vec<Edit> {
     let mut v: Vec<Edit> = difflab::edits(files)
         .into_iter()
         .filter(|e| match e {
-            Edit::Rep { file, idx, .. } => matches!(files[*file].lines[*idx].label, Label::Content | Label::Outside),
+            Edit::Rep { file, idx, variant } => *variant == 0 && matches!(files[*file].lines[*idx].label, Label::Content | Label::Outside),
             Edit::Ins { dup, .. } => !dup, // lines stay pairwise distinct
             _ => true,
         })
